@@ -303,6 +303,10 @@ def static_size(repo: Repo, chk: Check) -> None:
 VIEW_HINTS = ("Subview", "SubviewOp", "ReinterpretCast", "CastOp", "LayoutCast", "MemorySpaceCast", "ViewLike", "memref.")
 
 
+# ops whose result addresses (a part of) the buffer of their operand
+VIEW_CLASSES = ("SubviewOp", "CastOp", "ReinterpretCastOp", "MemorySpaceCastOp", "ExpandShapeOp", "CollapseShapeOp", "LayoutCast", "UnrealizedConversionCastOp")
+
+
 def lifetime(repo: Repo, chk: Check) -> None:
     f, fl = flow_of(repo, chk, ALLOC, "MiniMallocate.match_and_rewrite")
     chk.rule(
@@ -341,6 +345,7 @@ def lifetime(repo: Repo, chk: Check) -> None:
                 except AnalysisError:
                     helper = None
     casts_ok = views_ok = False
+    followed: set[str] = set()
     if helper is not None:
         chk.analysed(helper.key)
         hfl = Flow(helper, repo)
@@ -377,6 +382,8 @@ def lifetime(repo: Repo, chk: Check) -> None:
                     casts_ok = True
                 if over_results and any(c.endswith("SubviewOp") for c in classes):
                     views_ok = True
+                if over_results:
+                    followed |= {n_.attr if isinstance(n_, ast.Attribute) else n_.id for n_ in ast.walk(m["c"]) if isinstance(n_, (ast.Attribute, ast.Name))}
     else:
         casts = [s for s in apps if has_fact(s, ["isinstance($u.operation, builtin.UnrealizedConversionCastOp)", "isinstance($u.operation, UnrealizedConversionCastOp)"])]
         casts_ok = bool(casts)
@@ -389,6 +396,12 @@ def lifetime(repo: Repo, chk: Check) -> None:
                "uses are followed transitively through views (subviews, casts) of the buffer",
                "only the alloc result and one level of unrealized cast are followed: a subview (or further cast) of the buffer that is "
                "used later does not extend the lifetime, so its address range can be handed to another buffer while still in use")
+    # every op of the memref dialect (and of snax) whose result is a view of its operand's buffer is followed
+    if followed:
+        missing = [c for c in VIEW_CLASSES if c not in followed]
+        chk.result(not missing, "C11.lifetime", f"{f.key}:view-kinds", f.where, f"all view-like ops are followed: {sorted(VIEW_CLASSES)}",
+                   f"uses through {missing} are not followed: a buffer that is only used through such a view after another buffer was allocated has ended its lifetime "
+                   "by then, and the two get the same address range (memref.collapse_shape %a, then an alloc, then a use of the flattened view)")
     # end_time update
     upd = [s for s in fl.stmts(ast.Assign) if s.reachable and isinstance(s.node.targets[0], ast.Attribute) and s.node.targets[0].attr == "end_time"]
     oku = False
